@@ -67,6 +67,18 @@ theorem get_eq_spec_full (cfg : Cfg) (d order : Desc) (key : Nat) (op : Op) (now
       C01.get cfg d (getTokens order) key op now = .error .tooManyUnhealthy) := by
   rw [getTokens_eq_sorted d order hperm hu]; exact get_eq_spec cfg d key op now hwf hrf
 
+/-- full strength incl. the error kind: `ErrEmptyRing` exactly for a ring without tokens -/
+theorem get_fail_kind_full (cfg : Cfg) (d order : Desc) (key : Nat) (op : Op) (now : Int) (hwf : WFRing d)
+    (hu : TokensU32 d) (hrf : 1 ≤ cfg.rf) (hperm : order.Perm d) (hok : (specGet cfg op d key now).ok = false) :
+    C01.get cfg d (getTokens order) key op now
+      = .error (if sortedTokens d = [] then .emptyRing else .tooManyUnhealthy) := by
+  rw [getTokens_eq_sorted d order hperm hu]; exact get_fail_kind cfg d key op now hwf hrf hok
+
+theorem get_emptyRing_iff_full (cfg : Cfg) (d order : Desc) (key : Nat) (op : Op) (now : Int) (hwf : WFRing d)
+    (hu : TokensU32 d) (hrf : 1 ≤ cfg.rf) (hperm : order.Perm d) :
+    C01.get cfg d (getTokens order) key op now = .error .emptyRing ↔ sortedTokens d = [] := by
+  rw [getTokens_eq_sorted d order hperm hu]; exact get_emptyRing_iff cfg d key op now hwf hrf
+
 theorem lookup_local_remove_full (cfg : Cfg) (d order order' : Desc) (key : Nat) (op : Op) (now : Int) (xid : String)
     (hwf : WFRing d) (hu : TokensU32 d) (hrf : 1 ≤ cfg.rf) (hperm : order.Perm d)
     (hperm' : order'.Perm (d.filter (keepNot xid))) (hx : ∀ y ∈ specWalked cfg op d key, y.id ≠ xid) :
